@@ -156,10 +156,10 @@ def recompute_edge(df_features, cyc_idx, direction):
     edge = df_features.iloc[edge_range].copy()
 
     # Update dataframe with recomputed consistency features
-    df_features['amp_consistency'][cyc_idx] = \
+    df_features.iloc[cyc_idx, df_features.columns.get_loc('amp_consistency')] = \
         compute_amp_consistency(edge, direction=direction)[1]
 
-    df_features['period_consistency'][cyc_idx] = \
+    df_features.iloc[cyc_idx, df_features.columns.get_loc('period_consistency')] = \
         compute_period_consistency(edge, direction=direction)[1]
 
     return df_features
